@@ -7,7 +7,7 @@ PROP = {
     "technique": "runtime monitoring: vid accounting at a scripted local OTLP collector against a reference routing table, plus the emitter's event_discarded counter",
     "assumptions": [
         "every event carries a unique `vid` (attribute and message); records are counted per log record / span / metric, not per data point",
-        "metric-kinded events whose value is an empty sequence, an integer outside i64 or numeric-looking text are only required to go to exactly one of {metrics, fallback}",
+        "metric-kinded events whose value is an empty sequence or numeric-looking text are only required to go to exactly one of {metrics, fallback}; integers beyond the i64 range (u64 / u128 / i128, scalar or inside a sequence) are numeric and belong to metrics",
         "the kind of an event is what its `evt_kind` value denotes, however it is carried (typed, owned / shared buffer, Display of a foreign type, String through serde / sval, padded or mixed-case text, ambient context frame)",
         "an empty range extent is a range (documented on Extent::range); upper-case / mixed-case kind text denotes the kind (C15 requires the kind parser to accept it)",
         "split-batch section: an unacknowledged attempt and its acknowledged retry may carry the same events (at-least-once); only events in two ACKNOWLEDGED requests count as exported twice, and only when the emitter has seen every acknowledgement the collector wrote; back-off and request timeout are shortened through the cfg(emit_rs_emit_verif) hooks for that section only",
